@@ -407,6 +407,45 @@ def _import_check(name):
 
 
 def worker_chunk(args):
+    """Run one chunk in a forked child of this (pristine) worker: every chunk starts from the state the
+    library has right after import, so that a result which depends on *earlier runs* (state leaking
+    between calls) is reproducible by replaying the chunk prefix in a fresh interpreter."""
+    if os.environ.get("VERIF_NO_FORK"):
+        return _chunk_body(args)
+    import pickle
+
+    rfd, wfd = os.pipe()
+    pid = os.fork()
+    if pid == 0:
+        code = 0
+        try:
+            os.close(rfd)
+            res = _chunk_body(args)
+            with os.fdopen(wfd, "wb") as w:
+                pickle.dump(res, w, protocol=pickle.HIGHEST_PROTOCOL)
+        except BaseException:
+            code = 3
+            try:
+                traceback.print_exc()
+            except Exception:
+                pass
+        finally:
+            os._exit(code)
+    os.close(wfd)
+    with os.fdopen(rfd, "rb") as r:
+        data = r.read()
+    _, status = os.waitpid(pid, 0)
+    if status != 0 or not data:
+        modname, base, lo, hi, tier = args
+        return {
+            "lo": lo, "hi": hi, "counters": collections.Counter(), "abstract": set(), "digest": "dead-child-%d" % status,
+            "viol": [], "nviol": 0, "harness": [(lo, "chunk child exited with status %d" % status)], "nharness": 1,
+            "timeouts": [], "samples": [], "steps": 0, "wall": 0.0,
+        }
+    return pickle.loads(data)
+
+
+def _chunk_body(args):
     modname, base, lo, hi, tier = args
     import gc
 
@@ -451,6 +490,7 @@ def worker_chunk(args):
                 counters["known:" + kid] += 1
             k = out.key() + (kid,)
             size = _case_size(case)
+            od["chunk_lo"] = lo
             if k in viol:
                 if size < viol[k][0]:
                     viol[k] = (size, i, case, od)
@@ -602,7 +642,7 @@ def ddmin_list(lst):
 # --------------------------------------------------------------------------
 
 
-def write_replay(prop, base, index, case, od, minimised, execs, dirname=None):
+def write_replay(prop, base, index, case, od, minimised, execs, dirname=None, history=None):
     dirname = dirname or os.environ.get("VERIF_REPLAY_DIR") or os.path.join(VERIF_DIR, "replays")
     os.makedirs(dirname, exist_ok=True)
     body = {
@@ -617,7 +657,11 @@ def write_replay(prop, base, index, case, od, minimised, execs, dirname=None):
         "code_sha256": code_fingerprint(),
         "case": case,
     }
-    tag = hashlib.sha256(canon(body["case"]).encode()).hexdigest()[:12]
+    if history:
+        # the violation depends on earlier runs in the same process: replay = execute these cases in order, judge the last
+        body["history"] = history
+        body["history_dependent"] = True
+    tag = hashlib.sha256(canon([body["case"], body.get("history")]).encode()).hexdigest()[:12]
     path = os.path.join(dirname, "%s-%s-%s.json" % (prop, od["oracle"], tag))
     with open(path, "w") as f:
         json.dump(body, f, indent=1, sort_keys=True)
@@ -635,3 +679,29 @@ def replay_in_fresh_process(prop, path):
     except subprocess.TimeoutExpired:
         return False, "replay timed out"
     return p.returncode == 1 and "VIOLATION property=%s" % prop in p.stdout, p.stdout + p.stderr
+
+
+def run_history_in_fresh_process(prop, cases, timeout=600):
+    """Execute `cases` in order in one new interpreter; return the outcome dict of the last (or None)."""
+    import tempfile
+
+    fd, path = tempfile.mkstemp(prefix="svgverif-hist-", suffix=".json", dir=os.environ.get("TMPDIR") or "/var/tmp")
+    try:
+        with os.fdopen(fd, "w") as f:
+            json.dump({"cases": cases}, f)
+        cmd = [sys.executable, "-B", os.path.join(VERIF_DIR, "check.py"), prop, "--run-history", path]
+        env = dict(os.environ)
+        env["PYTHONHASHSEED"] = "0"
+        try:
+            p = subprocess.run(cmd, capture_output=True, text=True, timeout=timeout, env=env, cwd=VERIF_DIR)
+        except subprocess.TimeoutExpired:
+            return None
+        for line in reversed(p.stdout.splitlines()):
+            if line.startswith("HISTORY-RESULT "):
+                return json.loads(line[len("HISTORY-RESULT "):])
+        return None
+    finally:
+        try:
+            os.unlink(path)
+        except OSError:
+            pass
